@@ -82,7 +82,54 @@ func c20Lookup(p *Prog, r *Report) {
 	first := rets[0]
 	hit := stripVersions(first.Rets[0])
 	okHit := isNilPoly(first.Rets[1]) && (hit.MentionsRoot(vals) || strings.Contains(hit.String(), "level"))
-	r.Ob("exact-hit", p.Pos(first.Pos), okHit, "the first return hands back the series value stored for the date itself")
+	// the lookup key of the exact hit is the queried date itself
+	keyOK := false
+	keyTxt := "?"
+	{
+		info := fi.Pkg.TypesInfo
+		dateName := ""
+		if ns := paramNames(fi.Decl); len(ns) >= 2 {
+			dateName = ns[1]
+		}
+		ast.Inspect(fi.Decl.Body, func(n ast.Node) bool {
+			ifs, ok := n.(*ast.IfStmt)
+			if !ok || ifs.Init == nil {
+				return true
+			}
+			as, ok := ifs.Init.(*ast.AssignStmt)
+			if !ok || len(as.Lhs) != 2 || len(as.Rhs) != 1 {
+				return true
+			}
+			ie, ok := as.Rhs[0].(*ast.IndexExpr)
+			if !ok {
+				return true
+			}
+			if _, isMap := info.TypeOf(ie.X).Underlying().(*types.Map); !isMap {
+				return true
+			}
+			keyTxt = types.ExprString(ie.Index)
+			okId, _ := as.Lhs[1].(*ast.Ident)
+			condId, _ := ifs.Cond.(*ast.Ident)
+			if okId == nil || condId == nil || condId.Name != okId.Name {
+				keyTxt += " (the branch is not taken on 'found')"
+				return true
+			}
+			if id, ok := ie.Index.(*ast.Ident); ok && id.Name == dateName {
+				// the value returned in the body is the looked-up value
+				if v, ok := as.Lhs[0].(*ast.Ident); ok {
+					for _, st := range ifs.Body.List {
+						if rs, ok := st.(*ast.ReturnStmt); ok && len(rs.Results) == 2 {
+							if rv, ok := rs.Results[0].(*ast.Ident); ok && rv.Name == v.Name {
+								keyOK = true
+							}
+						}
+					}
+				}
+			}
+			return true
+		})
+	}
+	r.Ob("exact-hit", p.Pos(first.Pos), okHit && keyOK, fmt.Sprintf("the first return hands back the series value stored for the date itself (lookup key %s must be the queried date: %v)", keyTxt, keyOK))
 	// missing-neighbour cases (value 0 means 'none')
 	cases := map[string]bool{}
 	for _, e := range rets[1 : len(rets)-1] {
@@ -500,25 +547,46 @@ func c20SeriesId(p *Prog, r *Report) {
 		a, ok2 := c.Args[0].(*ast.Ident)
 		return ok && ok2 && f.Name == "len" && a.Name == id
 	}
+	// boolean skeleton: the result is a conjunction of (length guard)? ∧ (prefix test) ∧ (one OR-group of
+	// "character directly after the id == separator constant"); nothing else, no negation, no inequality
+	var ret ast.Expr
+	nRet := 0
 	ast.Inspect(ff.Decl.Body, func(n ast.Node) bool {
-		switch t := n.(type) {
+		if rs, ok := n.(*ast.ReturnStmt); ok && len(rs.Results) == 1 {
+			ret = rs.Results[0]
+			nRet++
+		}
+		return true
+	})
+	shape := ""
+	var flat func(e ast.Expr, op token.Token) []ast.Expr
+	flat = func(e ast.Expr, op token.Token) []ast.Expr {
+		for {
+			pe, ok := e.(*ast.ParenExpr)
+			if !ok {
+				break
+			}
+			e = pe.X
+		}
+		if be, ok := e.(*ast.BinaryExpr); ok && be.Op == op {
+			return append(flat(be.X, op), flat(be.Y, op)...)
+		}
+		return []ast.Expr{e}
+	}
+	isPrefix := func(e ast.Expr) bool {
+		switch t := e.(type) {
 		case *ast.BinaryExpr:
 			if t.Op != token.EQL {
-				return true
+				return false
 			}
-			// line[0:len(id)] == id
 			if se, ok := t.X.(*ast.SliceExpr); ok {
 				if x, ok := se.X.(*ast.Ident); ok && x.Name == line && isLenId(se.High) {
-					if y, ok := t.Y.(*ast.Ident); ok && y.Name == id {
-						prefixOK = true
+					lowOK := se.Low == nil
+					if bl, ok := se.Low.(*ast.BasicLit); ok && bl.Value == "0" {
+						lowOK = true
 					}
-				}
-			}
-			// line[len(id)] == <separator constant>
-			if ie, ok := t.X.(*ast.IndexExpr); ok {
-				if x, ok := ie.X.(*ast.Ident); ok && x.Name == line && isLenId(ie.Index) {
-					if tv, ok := finfo.Types[t.Y]; ok && tv.Value != nil {
-						sepOK++
+					if y, ok := t.Y.(*ast.Ident); ok && y.Name == id && lowOK {
+						return true
 					}
 				}
 			}
@@ -526,21 +594,68 @@ func c20SeriesId(p *Prog, r *Report) {
 			if f := callee(finfo, t); f != nil && f.Pkg() != nil && f.Pkg().Path() == "strings" && f.Name() == "HasPrefix" && len(t.Args) == 2 {
 				if x, ok := t.Args[0].(*ast.Ident); ok && x.Name == line {
 					if y, ok := t.Args[1].(*ast.Ident); ok && y.Name == id {
-						prefixOK = true
-					}
-					// HasPrefix(line, id+"<sep>")
-					if be, ok := t.Args[1].(*ast.BinaryExpr); ok && be.Op == token.ADD {
-						if y, ok := be.X.(*ast.Ident); ok && y.Name == id {
-							if tv, ok := finfo.Types[be.Y]; ok && tv.Value != nil {
-								prefixOK = true
-								sepOK++
-							}
-						}
+						return true
 					}
 				}
 			}
 		}
-		return true
-	})
-	r.Ob("filter:exact", p.Pos(ff.Decl.Pos()), prefixOK && sepOK > 0, fmt.Sprintf("%s: id required as line prefix: %v; character directly after the id compared with %d separator constant(s) (a test on the rest of the line as a whole lets 'W1' match the lines of 'W10')", filter.Name(), prefixOK, sepOK))
+		return false
+	}
+	isSep := func(e ast.Expr) bool {
+		be, ok := e.(*ast.BinaryExpr)
+		if !ok || be.Op != token.EQL {
+			return false
+		}
+		ie, ok := be.X.(*ast.IndexExpr)
+		if !ok {
+			return false
+		}
+		x, ok := ie.X.(*ast.Ident)
+		if !ok || x.Name != line || !isLenId(ie.Index) {
+			return false
+		}
+		tv, ok := finfo.Types[be.Y]
+		return ok && tv.Value != nil
+	}
+	isLenGuard := func(e ast.Expr) bool {
+		be, ok := e.(*ast.BinaryExpr)
+		if !ok || (be.Op != token.GEQ && be.Op != token.GTR) {
+			return false
+		}
+		c, ok := be.X.(*ast.CallExpr)
+		if !ok || len(c.Args) != 1 {
+			return false
+		}
+		f, ok1 := c.Fun.(*ast.Ident)
+		a, ok2 := c.Args[0].(*ast.Ident)
+		return ok1 && ok2 && f.Name == "len" && a.Name == line && isLenId(be.Y)
+	}
+	if nRet != 1 || ret == nil {
+		shape = fmt.Sprintf("%d return statements, expected one boolean expression", nRet)
+	} else {
+		for _, c := range flat(ret, token.LAND) {
+			switch {
+			case isPrefix(c):
+				if prefixOK {
+					shape = "two prefix tests"
+				}
+				prefixOK = true
+			case isLenGuard(c):
+			default:
+				ds := flat(c, token.LOR)
+				all := len(ds) > 0
+				for _, d := range ds {
+					if !isSep(d) {
+						all = false
+					}
+				}
+				if all && sepOK == 0 {
+					sepOK = len(ds)
+				} else {
+					shape = "unexpected conjunct " + types.ExprString(c)
+				}
+			}
+		}
+	}
+	r.Ob("filter:exact", p.Pos(ff.Decl.Pos()), prefixOK && sepOK > 0 && shape == "", fmt.Sprintf("%s is (length guard) ∧ (id is the line prefix: %v) ∧ (character directly after the id is one of %d separator constants) and nothing else %s (a test on the rest of the line as a whole lets 'W1' match the lines of 'W10'; an alternative instead of a conjunction accepts every line with a separator at that position)", filter.Name(), prefixOK, sepOK, shape))
 }
